@@ -78,6 +78,30 @@ def run(chk: Check, model):
     st = r0.ret
     ok = st[0] == "obj" and dict(st[2]).get("bestsofar_loss") == S("jax.numpy.inf") and dict(st[2]).get("bestsofar") == dict(st[2]).get("mean")
     chk.add("C18.best", "initial best loss is +inf", ok, f"init_state returns {T.show(st)[:160]}", chk.loc(fi0))
+    # the optimisation loops continue from the state they are given (the best-so-far survives a continued run) and thread it through
+    for q, step, carry_proj in (("cem.cem", "rex.cem.cem_step", None), ("evo.evo", "rex.evo.evo_step", 0)):
+        fl = model.func(q)
+        chk.used(fl.qualname)
+        evl = SymEval(model)
+        rl = evl.run_function(fl)
+        scans = [e for e in rl.events if e.kind == "call" and e.name == "jax.lax.scan"]
+        ok = len(scans) == 1 and len(scans[0].args) >= 2
+        if ok:
+            init = scans[0].args[1]
+            init_state = init if carry_proj is None else (init[1][carry_proj] if init[0] == "tuple" and len(init[1]) > carry_proj else T.NONE)
+            ok = init_state == S("init_state")
+            lp = [l for l in rl.loops.values() if l.kind == "scan" and l.node is scans[0].node]
+            res = lp[0].env_out.get("result") if lp else None
+            carry = lp[0].env_in["carry"] if lp else None
+            steps = [e for e in rl.events if e.kind == "call" and e.name == step]
+            st_in = carry if carry_proj is None else T.mk_index(carry, T.const(carry_proj))
+            ok2 = len(steps) == 1 and len(steps[0].args) >= 3 and steps[0].args[2] == st_in
+            new_state = T.mk_index(steps[0].term, T.ZERO) if steps else T.NONE
+            ok3 = res is not None and res[0] == "tuple" and (res[1][0] == new_state or (res[1][0][0] == "tuple" and res[1][0][1] and res[1][0][1][0] == new_state))
+        chk.add("C18.best", f"{q}: starts from the given state", bool(ok), f"{q} scans from {T.show(scans[0].args[1])[:120] if scans and len(scans[0].args) > 1 else None}, expected the caller's init_state "
+                "(re-initialising it forgets the best-so-far of a continued optimisation)", chk.loc(fl))
+        if ok:
+            chk.add("C18.best", f"{q}: each step continues from the previous step's state", bool(ok2 and ok3), "the scan body must call the step with the carried state and carry the state it returns", chk.loc(fl))
     # ---------------------------------------------------------------- bounds
     fi = model.func("cem.gaussian_samples")
     chk.used(fi.qualname)
